@@ -1,5 +1,6 @@
-import OnlVerif.Lemmas.SchedSP
-import OnlVerif.Net.SPOnK
+import OnlVerif.Lemmas.SPKRefine
+import OnlVerif.Props.C12
+import OnlVerif.Props.C13
 /-!
 # C12/C13 on the kernel: the SP scheduler *as processes on the kernel model* refines the MultiQueueServer LTS
 
@@ -7,11 +8,120 @@ import OnlVerif.Net.SPOnK
 joined with `yield process`), `SP.run` and a packet source as one program of the kernel model `K` (`OnlVerif/Kernel`).
 Nothing is assumed about scheduling: `Environment.step` of the kernel model decides what runs when (the `StorePut` /
 `StoreGet` events of the per-flow stores and of the wake-up store, the `Initialize` and `Process` events of the sender, the
-timeouts of the source and of the sender).
+timeouts of the source and of the sender).  The theorems close the gap DESIGN §2.3 names for this device: every kernel step
+of this program is a (possibly empty) sequence of actions the MultiQueueServer LTS with the SP record
+(`OnlVerif/Net/MultiQueue.lean`, `Net/Sched/SP.lean`) *accepts*, so the admissibility rules of the LTS (a triggered event is
+processed before the clock moves, a transmission ends exactly at its due instant, a wake-up token is handed over before the
+clock moves) are consequences of the kernel model, and the C12/C13 theorems hold of kernel runs.
+
+Scope: one `SP` over the flows `0 … F-1` (`F` arbitrary) with an arbitrary priority table naming only these flows,
+`flow2class` the identity, an `out` attached, `rate > 0`; one source process with non-negative gaps (zero gaps = bursts, and
+arrivals exactly at transmission ends, included) whose packets belong to flows with a positive priority (a packet of another
+flow makes `SP.run` spin for ever without yielding: a hang, which the model reports as the exception `Hang`); exact rational
+time; `fuel + 1` = any positive bound of the `_resume` loop.
 -/
 
 namespace C13K
-open SPOnK
+open SPOnK SPK MQ
+
+/-- **Refinement, step by step**: let `s` be reachable by kernel steps from the initial state and let the next kernel step
+end in `s'`.  Then that step is a normal one (`.ok`: no exception — in particular never `Hang` —, no stop), and there is a
+(possibly empty) sequence of LTS actions that the MultiQueueServer LTS with the SP record *accepts* from the abstraction of
+`s`, that ends exactly in the abstraction of `s'` (the step commutes with the executable abstraction function `absSP`), and
+in which the packets accepted / sent out are exactly the `put` / `out` observations the kernel step appended to the trace. -/
+theorem sp_on_kernel_step_refines (F : Nat) (flow size : Int → Nat) (cfg : SP.Cfg ℚ) (arrivals : List (ℚ × Int))
+    (hw : WorkOK flow F cfg arrivals) (ht : TableOK F cfg) (hr : 0 < cfg.rate) (fuel : Nat) (s s' : KState ℚ (SpSt ℚ))
+    (hreach : KReach (prog F flow size cfg) (fuel + 1) (initState F arrivals) s)
+    (hstep : (step (prog F flow size cfg) (fuel + 1) s).state? = some s') :
+    step (prog F flow size cfg) (fuel + 1) s = .ok s' ∧
+    ∃ new acts, histOf s'.trace = histOf s.trace ++ new ∧
+      runActs (SP.sched cfg) (absSP flow size s) acts = .ok (absSP flow size s', putPk flow size new, outPk flow size new) := by
+  obtain ⟨a, _, hi, _⟩ := reach_lts (size := size) fuel hw ht hr hreach
+  cases hp : popMin s.agenda with
+  | none => simp [_root_.step, hp, StepResult.state?] at hstep
+  | some qr =>
+    obtain ⟨q, rest⟩ := qr
+    obtain ⟨s'', a', new, h1, h2, -, -, -, h6, acts, h7⟩ := inv_step_lts (size := size) fuel hi hp
+    rw [h1] at hstep
+    simp only [StepResult.state?, Option.some.injEq] at hstep
+    subst hstep
+    exact ⟨h1, new, acts, h6, by rw [absSP_eq hi, absSP_eq h2]; exact h7⟩
+
+/-- **Refinement, whole runs**: every state reachable by kernel steps is the image under `absSP` of an *admissible* run of
+the LTS from the state of a fresh `SP` (`C13.start 0`): the LTS accepts some action sequence that ends in `absSP s` and in
+which the packets accepted are the `put` observations and the packets sent out the `out` observations of the kernel trace,
+in order — i.e. `absSP s` is `MQ.Reached`, the hypothesis of the C12 theorems. -/
+theorem sp_on_kernel_refines_lts (F : Nat) (flow size : Int → Nat) (cfg : SP.Cfg ℚ) (arrivals : List (ℚ × Int))
+    (hw : WorkOK flow F cfg arrivals) (ht : TableOK F cfg) (hr : 0 < cfg.rate) (fuel : Nat) (s : KState ℚ (SpSt ℚ))
+    (hreach : KReach (prog F flow size cfg) (fuel + 1) (initState F arrivals) s) :
+    Reached (SP.sched cfg) (SP.Pc.scan 0) 0 [] (absSP flow size s) (putPk flow size (histOf s.trace))
+      (outPk flow size (histOf s.trace)) := by
+  obtain ⟨a, acts, hi, hrun⟩ := reach_lts (size := size) fuel hw ht hr hreach
+  refine ⟨by intro e he; simp at he, acts, ?_⟩
+  rw [absSP_eq hi]
+  exact hrun
+
+/-- **No kernel step ever crashes, and `run()` returns**: for every workload as above, every state reachable by kernel
+steps is followed by a normal step or has an empty agenda, and `run()` of the kernel model returns (agenda empty, no
+exception) within `10·n + 4` kernel steps, `n` = the number of packets. -/
+theorem sp_on_kernel_run_returns (F : Nat) (flow size : Int → Nat) (cfg : SP.Cfg ℚ) (arrivals : List (ℚ × Int))
+    (hw : WorkOK flow F cfg arrivals) (ht : TableOK F cfg) (hr : 0 < cfg.rate) (fuel n : Nat)
+    (hn : 10 * arrivals.length + 4 ≤ n) :
+    (∀ s, KReach (prog F flow size cfg) (fuel + 1) (initState F arrivals) s →
+      (∃ s', step (prog F flow size cfg) (fuel + 1) s = .ok s') ∨ step (prog F flow size cfg) (fuel + 1) s = .empty) ∧
+    ∃ sF, runAll (prog F flow size cfg) (fuel + 1) n (initState F arrivals) = .returned .none sF ∧ sF.agenda = [] ∧
+      KReach (prog F flow size cfg) (fuel + 1) (initState F arrivals) sF := by
+  constructor
+  · intro s hs
+    obtain ⟨a, hi⟩ := reach_inv (size := size) fuel hw ht hr hs
+    cases hp : popMin s.agenda with
+    | none => right; simp [_root_.step, hp]
+    | some qr =>
+      obtain ⟨q, rest⟩ := qr
+      obtain ⟨s', _, _, h1, _⟩ := inv_step (size := size) fuel hi hp
+      exact Or.inl ⟨s', h1⟩
+  · have h0 := inv_init (flow := flow) arrivals hw ht hr
+    obtain ⟨sF, aF, h1, -, h3, h4⟩ := run_returns (size := size) fuel (initState F arrivals) n _ _ h0
+      (by rw [a0_mu]; omega) KReach.init
+    exact ⟨sF, h1, h3, h4⟩
+
+/-! ### the C12/C13 theorems for kernel runs -/
+
+/-- **Work conservation on the kernel** (`C12.mq_never_idle_with_backlog`): in a state reachable by kernel steps, if the
+LTS image may let the clock advance and no transmission is in progress, then `total_packets` is 0, every per-flow store is
+empty and `run` holds no packet. -/
+theorem kernel_never_idle_with_backlog (F : Nat) (flow size : Int → Nat) (cfg : SP.Cfg ℚ) (arrivals : List (ℚ × Int))
+    (hw : WorkOK flow F cfg arrivals) (ht : TableOK F cfg) (hr : 0 < cfg.rate) (fuel : Nat) (s : KState ℚ (SpSt ℚ))
+    (hreach : KReach (prog F flow size cfg) (fuel + 1) (initState F arrivals) s) (t : ℚ)
+    (htick : ∃ s' o, MQ.step (SP.sched cfg) (absSP flow size s) (.tick t) = .ok (s', o))
+    (hidle : ∀ p d, (absSP flow size s).phase ≠ .sending p d) :
+    total (absSP flow size s).queueCount = 0 ∧ inHand (absSP flow size s) = [] ∧
+      ∀ c, storeOf (absSP flow size s).stores c = [] := by
+  have := C12.mq_never_idle_with_backlog (SP.sched cfg) (SP.lawful cfg) (SP.Pc.scan 0) 0 [] _ _ _
+    (sp_on_kernel_refines_lts F flow size cfg arrivals hw ht hr fuel s hreach) t htick hidle
+  exact ⟨this.1, this.2.1, this.2.2.1⟩
+
+/-- **Per-flow FIFO and conservation on the kernel** (`C12.mq_flow_fifo`): at every state reachable by kernel steps the
+packets of flow `f` handed to `put` so far are, in order, those of `f` handed to `out.put` followed by those of `f` still
+held (in transmission, then waiting in `stores[f]`). -/
+theorem kernel_flow_fifo (F : Nat) (flow size : Int → Nat) (cfg : SP.Cfg ℚ) (arrivals : List (ℚ × Int))
+    (hw : WorkOK flow F cfg arrivals) (ht : TableOK F cfg) (hr : 0 < cfg.rate) (fuel : Nat) (s : KState ℚ (SpSt ℚ))
+    (hreach : KReach (prog F flow size cfg) (fuel + 1) (initState F arrivals) s) (f : Nat) :
+    ofFlow f (putPk flow size (histOf s.trace)) =
+      ofFlow f (outPk flow size (histOf s.trace)) ++ ofFlow f (heldC (SP.sched cfg) (absSP flow size s) f) :=
+  C12.mq_flow_fifo (SP.sched cfg) (SP.lawful cfg) (SP.Pc.scan 0) 0 [] _ _ _
+    (sp_on_kernel_refines_lts F flow size cfg arrivals hw ht hr fuel s hreach) f f rfl
+
+/-- **The counters are exact on the kernel** (`C12.mq_counters_eq`): `queue_count[f]`, `queue_byte_size[f]` and
+`total_packets`, read from the attribute cells of a reachable kernel state, equal the number / bytes of the packets held. -/
+theorem kernel_counters_eq (F : Nat) (flow size : Int → Nat) (cfg : SP.Cfg ℚ) (arrivals : List (ℚ × Int))
+    (hw : WorkOK flow F cfg arrivals) (ht : TableOK F cfg) (hr : 0 < cfg.rate) (fuel : Nat) (s : KState ℚ (SpSt ℚ))
+    (hreach : KReach (prog F flow size cfg) (fuel + 1) (initState F arrivals) s) (f : Nat) :
+    cnt (absSP flow size s).queueCount f = W (one f) (absSP flow size s) ∧
+    cnt (absSP flow size s).queueBytes f = W (bytesOf f) (absSP flow size s) ∧
+    total (absSP flow size s).queueCount = W (fun _ => 1) (absSP flow size s) :=
+  C12.mq_counters_eq (SP.sched cfg) (SP.lawful cfg) (SP.Pc.scan 0) 0 [] _ _ _
+    (sp_on_kernel_refines_lts F flow size cfg arrivals hw ht hr fuel s hreach) f
 
 /-! ### concrete runs of the kernel model, evaluated by the kernel of Lean (exact arithmetic) -/
 
